@@ -425,27 +425,6 @@ def extra_expected(d, iso) -> List[Any]:
 
 
 # ------------------------------------------------------------------ class predicates (Python side)
-def _live_overlap(d, share_var, log=None) -> bool:
-    """two iterators are live (started, not closed, and -- when the observed log is given -- not yet ended with
-    StopIteration or an exception) at the same time and their queries share a variable"""
-    started, dead = set(), set()
-    n = len(d["its"])
-    for k, o in enumerate(d["ops"]):
-        i = o[1]
-        if o[0] == "X":
-            dead.add(i)
-            continue
-        if i in dead:
-            continue
-        started.add(i)
-        for j in started - dead:
-            if j != i and share_var(i, j):
-                return True
-        if log is not None and k < len(log) and isinstance(log[k], int):
-            dead.add(i)       # this step ended the iterator (StopIteration or an exception)
-    return False
-
-
 def query_vars(q) -> set:
     vs = set(q["sel"])
     for a in q["conds"] + (q.get("rule") or []):
@@ -455,38 +434,8 @@ def query_vars(q) -> set:
     return vs
 
 
-def cache_class_py(d, log) -> List[str]:
-    """class of a cache case computed from the observed log (used only when the Coq model is not available)"""
-    cls = []
-    live: List[bool] = []
-    overlap = False
-    for o, r in zip(d["ops"], log):
-        if o[0] == "C":
-            overlap = overlap or any(live)
-            live.append(True)
-        elif o[1] < len(live) and (o[0] == "A" or (isinstance(r, int) and r < 0)):
-            live[o[1]] = False
-    if overlap:
-        cls.append("K_interleave")
-    if len(set(d["domain"])) != len(d["domain"]):
-        cls.append("K_dup")
-    return cls
-
-
-def sched_class(d, log=None) -> List[str]:
-    cls = []
-    if any(len(set(w)) != len(w) for w in d["W"]):
-        cls.append("K_dup")
-    qv = [query_vars(d["queries"][qi]) for qi in d["its"]]
-    if _live_overlap(d, lambda i, j: bool(qv[i] & qv[j]), log):
-        cls.append("K_interleave")
-    return cls
-
-
 def hist_class(d) -> List[str]:
     cls = []
-    if any(len(set(w)) != len(w) for w in d["W"]):
-        cls.append("K_dup")
     ev = d["evals"]
     if any(d["queries"][i].get("rule") is not None and ev.count(i) > 1 for i in set(ev)):
         cls.append("K_rule_reeval")
@@ -894,9 +843,7 @@ def evaluate_detail(d) -> Tuple[Any, Any]:
 def extra_verdict(d, impl) -> Tuple[str, Any]:
     """-> ('ok' | 'known:<classes>' | 'violation', expected log).  Shapes outside the modelled fragment: the match with a
     known-finding class is INEXACT (no model predicts the wrong output), it is a signature per iterator:
-      K_interleave  : the iterator was live together with another one over a shared variable while the domains were still being
-                      cached (no warm-up); it delivered a sub-multiset of its isolated rows (rows lost or late, none invented,
-                      none repeated) and/or died with the dict-size RuntimeError;
+      (K_interleave -- live iterators over a shared variable -- is no longer tolerated: the cache was fixed in 1997e3c)
       K_rule_reeval : the iterator belongs to a rule query object that has several evaluations in the case; its rows are
                       [tag, id] with tag in {0,1} and id among the ids of its isolated rows (missing rows, or the conclusion
                       of the other, suspended evaluation)."""
@@ -940,10 +887,6 @@ def extra_verdict(d, impl) -> Tuple[str, Any]:
                 classes.add("K_rule_reeval")
                 continue
             return "violation", exp
-        overlap = _live_overlap({"its": d["its"], "ops": d["ops"]}, lambda a, b: (a == i or b == i) and bool(shapes_vars[a] & shapes_vars[b]), log)
-        if overlap and not d.get("warm") and is_submultiset(rows, [r for r in iso[i] if isinstance(r, list)]):
-            classes.add("K_interleave")
-            continue
         return "violation", exp
     return "known:" + "+".join(sorted(classes)), exp
 
@@ -951,22 +894,25 @@ def extra_verdict(d, impl) -> Tuple[str, Any]:
 def run(tier: str, seed: int, replay=None) -> int:
     rep = Report(PROP, tier, seed, "proof")
     rep.trusted = core.COQ_TRUSTED + [
-        "hand-written models Eql/DomainCache.v (HashedIterable.__iter__), Eql/Reeval.v (whole evaluations over cached domains, "
+        "hand-written models Eql/DomainCache.v (HashedIterable.__iter__ of krrood 1997e3c = rstep; the previous iterator = hstep, regression only), Eql/Reeval.v (whole evaluations over cached domains, "
         "concluded_before), Eql/DomainCacheSched.v (coroutine machine for interleaved evaluations), each tied by differential "
         "execution against the implementation on every run",
         "harness/c03.py: case builders through the public API, schedule drivers, outcome encoding",
-        "CPython semantics that the models restate: generator protocol (body starts at first next, close()), dict-view iterator "
-        "(size check before every step, positional replay), itertools.product materialising its arguments",
+        "CPython semantics that the models restate: generator protocol (body starts at first next, close()), dict insertion order and "
+        "list(dict.values())[i:] as a snapshot, itertools.product materialising its arguments",
+        "source pins pins/c03.json (30 methods the hand models mirror: HashedIterable/HashedValue, Variable/Comparator/AND/descriptor/"
+        "quantifier evaluation, Exists, ConclusionSelector/ExceptIf, let): a changed method reopens the correspondence obligation",
     ]
     rep.assume = [
         "part (c) -- arbitrary next() interleavings of whole evaluations -- is COMPARED, not proved: the coroutine machine is an "
         "executable prediction; scratch state on shared nodes (_is_false_, _eval_parent_, left_evaluated) is not in any model",
         "part (b) is proved for the conjunctive fragment (atoms x.a op c / x.a op y.a, selected variables, one optional refinement rule) "
-        "with duplicate-free domains; other node kinds are only sampled (kind 'extra')",
+        "over arbitrary domains (an element listed twice is one element: the Spec de-duplicates, as the iterator does since 1997e3c); "
+        "other node kinds are only sampled (kind 'extra')",
         "domain elements are identified by HashedValue.id_ (objects with identity semantics)",
         "exists/for_all/or_/not_ shapes have no evaluator model here: they are compared with the implementation's own isolated result; after a "
-        "warm-up evaluation no known-finding class excuses a difference (C03_cache_warm_any_schedule: a warm cache cannot interfere; "
-        "C03_exists_local_isolated: the Exists memory is per evaluation)",
+        "warm-up evaluation -- and since 1997e3c also without one -- no class excuses a difference except K_rule_reeval "
+        "(C03_cache_any_schedule_repaired: the cache cannot make live iterators interfere; C03_exists_local_isolated: the Exists memory is per evaluation)",
     ]
     rep.rule = ("cache: every operation word over {create,next0,next1,abandon0,abandon1} up to length 5 (quick) / 7 (thorough) after a first "
                 "create, plus seeded random schedules (<=4 handles, <=40 steps, domains 0-5 elements, 15% with a duplicate, list/generator/"
@@ -983,6 +929,8 @@ def run(tier: str, seed: int, replay=None) -> int:
     ok_spec, log = core.coq_make(["Base/Sx.vo", "Eql/DomainCacheSpec.vo", "Eql/ReevalSpec.vo", "Eql/ReevalSpecSx.vo"])
     rep.oblige("build:spec", ok_spec, "" if ok_spec else core.first_error(log))
     model_ok = core.standard_proof_steps(rep, PROP, ["Props/C03.vo", "Eql/DomainCacheSched.vo", "Eql/ReevalCases.vo"])
+    from translator import pins
+    pins.oblige(rep, str(core.REPO), "c03", "the domain-cache / re-evaluation / interleaving models (Eql/DomainCache.v, Reeval.v, DomainCacheSched.v, ReevalExists.v)")
     rng = core.Rng(seed)
     t0 = time.time()
 
@@ -1032,7 +980,6 @@ def run(tier: str, seed: int, replay=None) -> int:
     bad: List[Tuple[dict, Any, str]] = []
     stale: List[dict] = []
     stale_in_f: List[dict] = []
-    pending: List[Tuple[dict, Any, str, List[str]]] = []
 
     def bump(k):
         dist[k] = dist.get(k, 0) + 1
@@ -1056,19 +1003,18 @@ def run(tier: str, seed: int, replay=None) -> int:
         if i not in codes:
             continue
         c = codes[i]
-        if kind == "cache":
-            code, cls = divmod(c, 10)
-            classes = (["K_interleave"] if cls & 1 else []) + (["K_dup"] if cls & 2 else [])
-            if not model_ok:
-                classes = cache_class_py(d, impl)
-            rep_ok = None
-        elif kind == "sched":
-            code, rep_ok = divmod(c, 10)
-            classes = sched_class(d, impl)
+        # no tolerated class is left for the domain cache (fixed by krrood 1997e3c): interleaved iterators over a shared
+        # variable and repeated domain elements must meet the Spec.  The only open class is K_rule_reeval (hist cases).
+        old_fails = 0
+        if kind in ("cache", "sched"):
+            code, old_fails = divmod(c, 10)
+            classes: List[str] = []
         else:
-            code, rep_ok, classes = c, None, hist_class(d)
+            code, classes = c, hist_class(d)
         bump(f"{kind}:code{code}")
         bump(f"{kind}:class:" + ("+".join(classes) if classes else "F"))
+        if old_fails:
+            bump(f"{kind}:previous-iterator-would-fail")
         if code == 0:
             continue
         if code == 1:
@@ -1079,47 +1025,13 @@ def run(tier: str, seed: int, replay=None) -> int:
             k = "+".join(classes) + " (class only: model not built)"
             known_counts[k] = known_counts.get(k, 0) + 1
             continue
-        if code == 2 and classes and (kind != "sched" or rep_ok == 1 or "K_dup" in classes):
+        if code == 2 and classes:
             k = "+".join(classes)
             known_counts[k] = known_counts.get(k, 0) + 1
             continue
-        why = ("impl = model <> spec inside the proved fragment (contradicts the theorem: harness/model inconsistency)" if code == 2 and not classes
-               else "impl = model <> spec but the repaired iterator does not explain it" if code == 2
+        why = ("impl = model <> spec inside the proved fragment (contradicts the theorems: harness/model inconsistency)" if code == 2
                else "implementation differs from the Spec and from the faithful model")
-        if code == 3 and classes and model_ok and len(pending) < 400:
-            pending.append((d, impl, why, classes))
-        else:
-            bad.append((d, impl, why))
-
-    # second look at cases outside F that match neither the whole model log nor the whole Spec log: after a PARTIAL repair
-    # (one of several classes fixed, or duplicates now removed consistently) every entry must still be explained
-    if pending:
-        exprs = []
-        for d, impl, why, classes in pending:
-            dd = dedup_case(d)
-            for dx in (d, dd):
-                exprs.append(f"{MODEL_FN[d['kind']]} {t_case(dx)}")
-                exprs.append(f"{SPEC_FN[d['kind']]} {t_case(dx)}")
-        try:
-            vals = core.coq_values(PROP, HEADER, exprs, chunk=200, tag="second")
-        except core.CoqEvalError as e:
-            rep.oblige("evaluate:second-look", False, str(e)[:300])
-            vals = None
-        for k, (d, impl, why, classes) in enumerate(pending):
-            if vals is None:
-                bad.append((d, impl, why))
-                continue
-            model, spec, model_dd, spec_dd = vals[4 * k: 4 * k + 4]
-            if "K_dup" in classes and impl == spec_dd:
-                stale.append(d)      # the domain is treated as a set, consistently on every evaluation
-                continue
-            cands = [model, spec] + ([model_dd, spec_dd] if "K_dup" in classes else [])
-            if (len(classes) >= 2 or "K_dup" in classes) and all(len(c) == len(impl) for c in cands) and \
-                    all(any(impl[j] == c[j] for c in cands) for j in range(len(impl))):
-                kk = "+".join(classes) + " (entry-wise)"
-                known_counts[kk] = known_counts.get(kk, 0) + 1
-                continue
-            bad.append((d, impl, why))
+        bad.append((d, impl, why))
 
     if stale:
         rep.note(f"{len(stale)} cases outside the proved fragment: the implementation meets the Spec where the model of the current code "
@@ -1154,9 +1066,11 @@ def run(tier: str, seed: int, replay=None) -> int:
     rep.extra["known_finding_instances"] = known_counts
     rep.extra["timing"] = {"impl_s": round(t_impl, 1)}
     rep.extra["level_by_part"] = {
-        "a": "proved: C03_cache_sequential (all NoDup domains, all schedules with one live handle at a time); refuted concurrent "
-             "(C03_refuted_interleave) and duplicates (C03_refuted_dup); repaired iterator proved for every schedule (C03_cache_any_schedule_repaired)",
-        "b": "proved on the fragment: C03_reeval_isolated / _idempotent / C03_history_independent; refuted: C03_refuted_rule_reeval, C03_refuted_dup_reeval",
+        "a": "proved for the current iterator: C03_cache_any_schedule_repaired (every domain incl. repeated elements, every schedule, any number of "
+             "live handles), C03_cache_any_schedule_empty; regression statements about the previous iterator: C03_old_cache_sequential, "
+             "C03_refuted_interleave, C03_refuted_dup",
+        "b": "proved on the fragment: C03_reeval_isolated / _idempotent / C03_history_independent (any domains), C03_exists_local_isolated; "
+             "refuted: C03_refuted_rule_reeval (open finding C03-b), C03_refuted_shared_exists_memory",
         "c": "partial: compared on enumerated and random schedules against an executable prediction, not proved"}
     samples = []
     for kind in ("cache", "hist", "sched", "extra"):
